@@ -100,6 +100,10 @@ fn probes(m: &Model) -> Vec<Vec<Bytes>> {
     p.push(sv(&["XREAD", "STREAMS", "s", "0"]));
     p.push(sv(&["XREAD", "COUNT", "2", "STREAMS", "s", "0-0"]));
     p.push(sv(&["XREAD", "STREAMS", "s", "s2", "0-0", "0-0"]));
+    // COUNT is a limit per stream, not a budget for the call (a seeded change let the first stream use it up)
+    p.push(sv(&["XREAD", "COUNT", "1", "STREAMS", "s", "s2", "0-0", "0-0"]));
+    p.push(sv(&["XREAD", "COUNT", "1", "STREAMS", "s2", "s", "0-0", "0-0"]));
+    p.push(sv(&["XREAD", "COUNT", "2", "STREAMS", "s", "s2", "0-0", "0-0"]));
     p.push(sv(&["XREAD", "STREAMS", "s2", "s", "0-0", "0-0"]));
     p.push(sv(&["XREAD", "STREAMS", "s", "nokey", "0-0", "0-0"]));
     p.push(sv(&["XREAD", "STREAMS", "s"]));
